@@ -429,16 +429,190 @@ def SeqOK : List RetOp → List FileInfo → Prop
   | op :: ops, r => OpOK op r ∧ SeqOK ops (op.apply r)
 
 /-- **Any sequence of retention passes** (any order, any thresholds/ages) keeps
-    the latest TXID restorable.  `retention_seq_partial`: sequences here contain
-    retention operations only; the interleaved growth operations of the property
-    statement (sync / compact / snapshot) change `N` and are covered by the history
-    stream of the engine and by C06's level theorems, not by this induction. -/
+    the latest TXID restorable (retention operations only; `retention_seq` below adds growth). -/
 theorem retention_seq_partial {N} : ∀ (ops : List RetOp) (r : List FileInfo), Good r N → SeqOK ops r →
     Good (applyAll ops r) N := by
   intro ops
   induction ops with
   | nil => intro r hg _; exact hg
   | cons op ops ih => intro r hg hok; exact ih _ (retention_preserves_latest hg op hok.1) hok.2
+
+/-- Everything the planner can see ends at or below the latest plan's end, and
+    starts at most one past it. -/
+theorem reach_closed {r N P} (hwf : FilesWF r) (hP : planFiles r latest = .ok P) (hN : chainEnd 0 P = N) :
+    ∀ f, Vis r f → f.max ≤ N ∧ f.min ≤ N + 1 := by
+  intro f hf
+  have hPv : C08.ValidChain (listLevel r) latest P := (C08.plan_sound (listLevel_wf hwf) hP).1
+  obtain ⟨hPne, hPc⟩ := validChain_latest.mp hPv
+  have hmin : f.min ≤ N + 1 := by
+    by_cases hl : f.level < snapshotLevel
+    · have := C08.planFiles_reports_gap hwf hP
+      rw [hN] at this
+      apply Nat.le_of_not_lt
+      intro hlt
+      exact this ⟨f, hf.1, hl, hlt⟩
+    · have h9 : f.level = snapshotLevel := by have := hf.2; omega
+      have := (hwf f hf.1).2.2 h9
+      omega
+  refine ⟨?_, hmin⟩
+  apply Nat.le_of_not_lt
+  intro hlt
+  have := chainFrom_append P 0 f hPc.1 (by rw [hN]; exact hmin) (by rw [hN]; exact hlt)
+  have hv : C08.ValidChain (listLevel r) latest (P ++ [f]) :=
+    validChain_latest.mpr ⟨by simp, this.1, by
+      intro g hg; simp at hg
+      rcases hg with hg | hg
+      · exact hPc.2 g hg
+      · subst hg; exact hf⟩
+  have := C08.plan_reaches_max (listLevel_wf hwf) hP hv
+  omega
+
+/-- Side condition of adding a file `g` (what sync, compaction and snapshot produce). -/
+structure AddOK (g : FileInfo) (r : List FileInfo) (N : Nat) : Prop where
+  pos : 1 ≤ g.min ∧ g.min ≤ g.max
+  lvl : g.level ≤ snapshotLevel
+  snap : g.level = snapshotLevel → g.min = 1
+  next : g.min ≤ N + 1
+  l1 : g.level = 1 → g.min ≤ maxL1 r + 1
+
+theorem maxL1_cons_le {g : FileInfo} {r : List FileInfo} :
+    maxL1 (g :: r) ≤ (if g.level = 1 then max (maxL1 r) g.max else maxL1 r) := by
+  rcases maxL1_mem (g :: r) with h | ⟨f, hf, hl, he⟩
+  · rw [h]; exact Nat.zero_le _
+  · rw [← he]
+    simp only [List.mem_cons] at hf
+    rcases hf with hf | hf
+    · subst hf; simp [hl]; omega
+    · have := le_maxL1 hf hl
+      split <;> omega
+
+/-- **Growth.** Adding the file a sync / compaction / snapshot produces keeps the
+    invariant; the latest restorable TXID becomes `max N g.max`. -/
+theorem good_add {r N g} (hg : Good r N) (ha : AddOK g r N) : Good (g :: r) (max N g.max) := by
+  obtain ⟨P, hP, hN⟩ := hg.latest
+  have hwf' : FilesWF (g :: r) := by
+    intro f hf
+    simp only [List.mem_cons] at hf
+    rcases hf with hf | hf
+    · subst hf; exact ⟨ha.pos.1, ha.pos.2, ha.snap⟩
+    · exact hg.wf f hf
+  have hclosed := reach_closed hg.wf hP hN
+  have hPv : C08.ValidChain (listLevel r) latest P := (C08.plan_sound (listLevel_wf hg.wf) hP).1
+  obtain ⟨hPne, hPc⟩ := validChain_latest.mp hPv
+  have hvis : ∀ f, Vis r f → Vis (g :: r) f := fun f hf => ⟨List.mem_cons_of_mem _ hf.1, hf.2⟩
+  -- a chain over the new set reaching max N g.max
+  have hex : ∃ Q, C08.ValidChain (listLevel (g :: r)) latest Q ∧ chainEnd 0 Q = max N g.max := by
+    by_cases hlt : N < g.max
+    · have := chainFrom_append P 0 g hPc.1 (by rw [hN]; exact ha.next) (by rw [hN]; exact hlt)
+      refine ⟨P ++ [g], validChain_latest.mpr ⟨by simp, this.1, ?_⟩, by rw [this.2]; omega⟩
+      intro f hf; simp at hf
+      rcases hf with hf | hf
+      · exact hvis f (hPc.2 f hf)
+      · subst hf; exact ⟨by simp, ha.lvl⟩
+    · exact ⟨P, validChain_latest.mpr ⟨hPne, hPc.1, fun f hf => hvis f (hPc.2 f hf)⟩, by rw [hN]; omega⟩
+  obtain ⟨Q, hQ, hQe⟩ := hex
+  -- every chain over the new set ends at or below max N g.max
+  have hub : ∀ Q', C08.ValidChain (listLevel (g :: r)) latest Q' → chainEnd 0 Q' ≤ max N g.max := by
+    intro Q' hQ'
+    obtain ⟨_, hc⟩ := validChain_latest.mp hQ'
+    apply chainEnd_le_of_closed (Vis (g :: r)) (max N g.max) ?_ Q' 0 (Nat.zero_le _) hc.1 hc.2
+    intro f hf _
+    have := hf.1
+    simp only [List.mem_cons] at this
+    rcases this with h | h
+    · subst h; omega
+    · have := (hclosed f ⟨h, hf.2⟩).1; omega
+  refine ⟨hwf', ?_, ?_⟩
+  · -- Covered
+    obtain ⟨Q1, hQ1, hM⟩ := hg.covered
+    have hQ1' : ChainOverP (fun f => Vis (g :: r) f ∧ f.level ≠ 0) Q1 :=
+      ⟨hQ1.1, fun f hf => ⟨hvis f (hQ1.2 f hf).1, (hQ1.2 f hf).2⟩⟩
+    have hmx := maxL1_cons_le (g := g) (r := r)
+    by_cases hl1 : g.level = 1
+    · simp only [hl1, if_true] at hmx
+      by_cases hlt : chainEnd 0 Q1 < g.max
+      · have := chainFrom_append Q1 0 g hQ1.1 (by have := ha.l1 hl1; omega) hlt
+        refine ⟨Q1 ++ [g], ⟨this.1, ?_⟩, by rw [this.2]; omega⟩
+        intro f hf; simp at hf
+        rcases hf with hf | hf
+        · exact hQ1'.2 f hf
+        · subst hf; exact ⟨⟨by simp, ha.lvl⟩, by omega⟩
+      · exact ⟨Q1, hQ1', by omega⟩
+    · simp only [hl1, if_false] at hmx
+      exact ⟨Q1, hQ1', by omega⟩
+  · rcases C08.planFiles_complete hwf' (by simp [latest]) ⟨Q, hQ⟩ with ⟨P', hP'⟩ | ⟨_, _, herr⟩
+    · refine ⟨P', hP', ?_⟩
+      have h1 := C08.plan_reaches_max (listLevel_wf hwf') hP' hQ
+      have h2 := hub P' (C08.plan_sound (listLevel_wf hwf') hP').1
+      omega
+    · exfalso
+      obtain ⟨rr, hdom, l, hl, f, hf, hlt⟩ := C08.gap_error_justified (listLevel_wf hwf') herr
+      have := hdom _ hQ
+      obtain ⟨hfr, hfl⟩ := mem_listLevel.mp hf
+      simp only [List.mem_cons] at hfr
+      rcases hfr with h | h
+      · subst h; have := ha.next; omega
+      · have := (hclosed f ⟨h, by omega⟩).2; omega
+
+
+/-! ### Sequences mixing retention with growth (sync / compact / snapshot) -/
+
+/-- One step of a replica history: a retention operation, or the appearance of one
+    new file (what `DB.Sync`+upload, `Compactor.Compact` and `DB.Snapshot` do to the listing). -/
+inductive Step where
+  | ret (op : RetOp)
+  | add (g : FileInfo)
+
+def Step.apply : Step → List FileInfo → List FileInfo
+  | .ret op, r => op.apply r
+  | .add g, r => g :: r
+
+/-- Latest restorable TXID after the step. -/
+def Step.reach : Step → Nat → Nat
+  | .ret _, n => n
+  | .add g, n => max n g.max
+
+def StepOK : Step → List FileInfo → Nat → Prop
+  | .ret op, r, _ => OpOK op r
+  | .add g, r, n => AddOK g r n
+
+def runSteps : List Step → List FileInfo → List FileInfo
+  | [], r => r
+  | s :: ss, r => runSteps ss (s.apply r)
+
+def reachSteps : List Step → Nat → Nat
+  | [], n => n
+  | s :: ss, n => reachSteps ss (s.reach n)
+
+def StepsOK : List Step → List FileInfo → Nat → Prop
+  | [], _, _ => True
+  | s :: ss, r, n => StepOK s r n ∧ StepsOK ss (s.apply r) (s.reach n)
+
+theorem step_good {r N} (hg : Good r N) (s : Step) (hok : StepOK s r N) : Good (s.apply r) (s.reach N) := by
+  cases s with
+  | ret op => exact retention_preserves_latest hg op hok
+  | add g => exact good_add hg hok
+
+/-- **Any history.** After any sequence of syncs, compactions, snapshots (each adding a
+    file that satisfies `AddOK`) and retention passes with any file ages, the latest
+    TXID — the highest ever added — is restorable. -/
+theorem retention_seq {N} : ∀ (ss : List Step) (r : List FileInfo), Good r N → StepsOK ss r N →
+    Good (runSteps ss r) (reachSteps ss N) := by
+  intro ss
+  induction ss generalizing N with
+  | nil => intro r hg _; exact hg
+  | cons s ss ih => intro r hg hok; exact ih _ (step_good hg s hok.1) hok.2
+
+theorem addOK_of_check {g r n} (h : addOKB g r n = true) : AddOK g r n := by
+  simp [addOKB] at h
+  obtain ⟨⟨⟨⟨⟨h1, h2⟩, h3⟩, h4⟩, h5⟩, h6⟩ := h
+  refine ⟨⟨h1, h2⟩, h3, ?_, h5, ?_⟩
+  · intro hl; rcases h4 with h4 | h4
+    · exact absurd hl h4
+    · exact h4
+  · intro hl; rcases h6 with h6 | h6
+    · exact absurd hl h6
+    · exact h6
 
 /-- With `RetentionEnabled = false` the remote replica is untouched by any retention call. -/
 theorem retention_disabled_remote (op : List FileInfo → RetOut) (s : Rep) : (s.retain false op).remote = s.remote := rfl
@@ -505,6 +679,13 @@ example : (planFiles (applyAll [.cascade 1000 3, .l0 1000] exR) latest).map (cha
 example : SeqOK [.cascade 1000 3, .l0 1000] exR := ⟨by show 3 < snapshotLevel; decide, trivial, trivial⟩
 example : sortFiles (applyAll [.cascade 1000 3, .l0 1000] exR) =
     [⟨0, 8, 8, 80⟩, ⟨1, 3, 4, 40⟩, ⟨1, 5, 7, 70⟩, ⟨2, 1, 4, 40⟩, ⟨9, 1, 6, 60⟩] := by decide
+
+/-- A history mixing growth and retention: sync 9, compact 8..9 into L1, snapshot at 9, cascade, L0 retention. -/
+example : StepsOK [.add ⟨0, 9, 9, 90⟩, .add ⟨1, 8, 9, 90⟩, .add ⟨9, 1, 9, 95⟩, .ret (.cascade 1000 3), .ret (.l0 1000)] exR 8 := by
+  refine ⟨addOK_of_check (by decide), addOK_of_check (by decide), addOK_of_check (by decide), ?_, trivial, trivial⟩
+  show 3 < snapshotLevel; decide
+example : (planFiles (runSteps [.add ⟨0, 9, 9, 90⟩, .add ⟨1, 8, 9, 90⟩, .add ⟨9, 1, 9, 95⟩, .ret (.cascade 1000 3), .ret (.l0 1000)] exR)
+    latest).map (chainEnd 0) = .ok 9 := by decide
 
 /-- Safeguard "only if covered by L1": were L0 files deleted regardless of `maxL1TXID`
     (here: `maxL1 := 100`), the latest state would be lost on this replica. -/
